@@ -101,7 +101,12 @@ def value_preds(draw, mesh_vars):
 def resolve(spec, m, exp, cand=None):
     """Turn the plain spec into concrete numbers: {"level": p, "pos": {axis: (lo, hi) box coords}, "val": (var, op, q_cgs)}
     cand: row indices of exp among which the leaf of a leaf-form box is chosen (default: all rows)"""
-    out = {"level": spec.get("level"), "pos": {}, "val": None}
+    out = {"level": spec.get("level"), "pos": {}, "val": None, "dx": None}
+    if spec.get("dx"):
+        # a cell-size criterion between the sizes of two consecutive levels (box units): dx > 0.75 2^-k accepts levels <= k,
+        # dx < 1.5 2^-k accepts levels >= k
+        d = spec["dx"]
+        out["dx"] = (d["op"], (0.75 if d["op"] == ">" else 1.5) * 0.5 ** d["k"])
     L = m.levelmax
     h = 0.5 ** L
     p = spec.get("pos")
@@ -206,6 +211,10 @@ def mask(res, m, exp):
     if res["val"]:
         var, op, q = res["val"]
         ok &= (exp[var] > q) if op == ">" else (exp[var] < q)
+    if res.get("dx"):
+        op, t = res["dx"]
+        size = 0.5 ** np.asarray(exp["level"], dtype=np.float64)
+        ok &= (size > t) if op == ">" else (size < t)
     return ok
 
 
@@ -223,6 +232,10 @@ def build_select(osyris, res, m):
         lo_a = osyris.Array(values=lo * scale, unit="cm")
         hi_a = osyris.Array(values=hi * scale, unit="cm")
         sel[f"position_{a}"] = lambda x, lo_a=lo_a, hi_a=hi_a: (x > lo_a) & (x < hi_a)
+    if res.get("dx"):
+        op, t = res["dx"]
+        ta = osyris.Array(values=t * scale, unit="cm")
+        sel["dx"] = (lambda d, ta=ta: d > ta) if op == ">" else (lambda d, ta=ta: d < ta)
     if res["val"]:
         var, op, q = res["val"]
         f, dims = rm.var_factor(var, m.ud, m.ul, m.ut)
